@@ -63,3 +63,25 @@ Theorem C11_copy : forall (P : Type) variant loggable has_comp (s : pk P),
                 c_onames := values (omap s); c_sens := None |} /\
   (has_sens s = false -> c = s).
 Proof. exact copy_config. Qed.
+
+(* (8) the calls that apply a net configuration (administration, regimen, outputs; no renaming, no sensitivities) to a
+   fresh model reach exactly that configuration, so any history ending in it leaves the object in the state of the
+   fresh model to which only the net configuration was applied *)
+Theorem C11_fresh_with_net_configuration :
+  forall (P : Type) variant loggable has_comp (a : adm) (r : option P) (sel sel0 : list string),
+  (forall c d, a = Some (c, d) -> has_comp c = true) ->
+  forallb (fun n => mem n (loggable a)) sel = true ->
+  cfg_of (run variant loggable has_comp (canon P a r sel) (init variant sel0))
+  = {| c_admin := a; c_regimen := match a with Some _ => r | None => None end;
+       c_pnames := parameter_names (variant a); c_outs := sel; c_onames := sel; c_sens := None |}.
+Proof. exact canon_reaches. Qed.
+Theorem C11_history_equals_fresh :
+  forall (P : Type) variant loggable has_comp (ops : list (op P)) (a : adm) (r : option P) (sel sel0 : list string),
+  (forall c d, a = Some (c, d) -> has_comp c = true) ->
+  forallb (fun n => mem n (loggable a)) sel = true ->
+  cfg_of (run variant loggable has_comp ops (init variant sel0))
+  = {| c_admin := a; c_regimen := match a with Some _ => r | None => None end;
+       c_pnames := parameter_names (variant a); c_outs := sel; c_onames := sel; c_sens := None |} ->
+  run variant loggable has_comp ops (init variant sel0)
+  = run variant loggable has_comp (canon P a r sel) (init variant sel0).
+Proof. exact history_equals_fresh. Qed.
